@@ -67,6 +67,9 @@ func (c18Engine) Gen(job *Job) *Case {
 	}
 	c.Project = cc.Projects[0]
 	nt := r.Range(2, 4)
+	if job.Tier == "thorough" && r.Chance(1, 3) {
+		nt = r.Range(4, 6)
+	}
 	scenario := []string{"independent", "shared", "mixed", "independent", "shared"}[r.Intn(5)]
 	if scenario != "independent" {
 		cc.Shared = append(cc.Shared, 0)
